@@ -261,6 +261,30 @@ def random_decl(rng, small=True):
     return Decl(opts, multis, toggles, rng.choice([None, None, 0, 1, 2, 3]), rng.random() < 0.25)
 
 
+def grow_decl(d, rng):
+    """a superset declaration: one or two more options/toggles with unused names and letters (K1 avoided)"""
+    used_names = set(x[0] for x in d.opts + d.multis + d.toggles)
+    used_letters = set(x[1] for x in d.opts + d.multis + d.toggles if x[1])
+    names = [n for n in ["c", "d", "cd", "extra", "more", "z-z", "k"] if n not in used_names and ("no-" + n) not in used_names]
+    letters = [c for c in "cdekmz" if c not in used_letters]
+    rng.shuffle(names)
+    rng.shuffle(letters)
+    opts, multis, toggles = list(d.opts), list(d.multis), list(d.toggles)
+    for _ in range(rng.randint(1, 2)):
+        if not names:
+            break
+        n = names.pop()
+        sh = letters.pop() if letters and rng.random() < 0.7 else None
+        k = rng.random()
+        if k < 0.35:
+            opts.append((n, sh, None, rng.choice([None, "d"]), True))
+        elif k < 0.6:
+            multis.append((n, sh, None, None, True))
+        else:
+            toggles.append((n, sh, None, rng.choice([0, 1]), rng.random() < 0.5))
+    return Decl(opts, multis, toggles, d.allowed, d.greedy)
+
+
 ENV_WORDS = ["", "x", "1", "0", "true", "FALSE", "on", "Off", "maybe", "-5", "--a=b", "a;b", ";", "a;;b;", "yes", "No", "TRUE ", "tRUE"]
 
 
@@ -314,6 +338,8 @@ class OptCheck(Check):
         return True
 
     def signature(self, case, mobs, iobs):
+        if case.startswith("steps "):
+            return ("steps", tuple(x[0] for x in case.split(" ")[3:8]), tuple(p.split(" ")[0] for p in iobs.split(" | ")[:3]))
         parts = iobs.split(" | ")
         sig = []
         for p in parts[:3]:
@@ -327,6 +353,12 @@ class OptCheck(Check):
         return (tuple(sig), d[0], d[1], min(len(w[3].split(",")), 5))
 
     def shrink(self, case):
+        if case.startswith("steps "):
+            w = case.split(" ")
+            for i in range(3, len(w)):
+                if len(w) > 4:
+                    yield " ".join(w[:i] + w[i + 1:])
+            return
         kind, dw, ew, argvs = parse_case(case)
         # drop a call, drop a token, shorten a token, drop env entries, drop declarations
         for i in range(len(argvs)):
@@ -356,6 +388,8 @@ class OptCheck(Check):
 
     def known_match(self, matcher, case, mobs, iobs):
         if matcher == "no_prefix_clash":
+            if case.startswith("steps "):
+                return False
             kind, dw, ew, argvs = parse_case(case)
             f = dw.split(";")
             names = []
